@@ -56,3 +56,15 @@ Theorem C20_regex_sources_pinned :
   ReSrc.util_RE_NORM_flags = ""%string /\ ReSrc.util_RE_BNORM_flags = ""%string.
 Proof. exact (conj pin_util_RE_NORM_flags pin_util_RE_BNORM_flags). Qed.
 Print Assumptions C20_regex_sources_pinned.
+
+(* whole strings: a raw pattern read as a sequence of tokens - plain characters, `\xhh`, `\uhhhh`, `\Uhhhhhhhh` (value in
+   range), octal escapes (a short one not followed by an octal digit), the simple escapes, `\N{name}` (name known), any
+   other backslash pair - is decoded to the concatenation of what each token denotes: plain text and other pairs
+   unchanged, every escape replaced by exactly its character; for token sequences of any length, str and bytes (bytes:
+   `\xhh`, octal & 0xFF, simple escapes) *)
+From WC.Proofs Require C20Whole.
+Theorem C20_rawchars_decodes_tokens : forall uname b nrm ts,
+  C20Whole.rwfs uname b ts ->
+  norm_pattern uname b nrm true (C20Whole.rsrcs ts) = inl (C20Whole.rvals b ts).
+Proof. exact C20Whole.rawchars_decodes_tokens. Qed.
+Print Assumptions C20_rawchars_decodes_tokens.
